@@ -16,8 +16,11 @@ RULE = ("archives with 1-3 versions x prior project states {empty, holding one o
         "format 1, empty tar, not a tar}; and every crash point of `cond restore` (process death between any two Python lines at which "
         "the on-disk state differs) for each archive x prior state, each surviving state checked after ordinary recovery and used as "
         "the start state of a second restore. oracle: unless the command reported success, committed rows and the digest of every "
-        "previously recorded directory are unchanged; on success every archived row is committed with its directory. non-trivial = "
+        "version directory that existed before (recorded or a leftover) are unchanged; on success every archived row is committed with its directory. non-trivial = "
         "faulted restore (corrupted archive, conflicting prior state or crash); distinct = distinct (archive, prior, fault)"
+        " Interrupts: ConductorAbort raised at every line of Conductor code during the restore (SIGINT/SIGTERM: the cleanup code runs), and a "
+        "real SIGTERM / SIGINT sent while the external tar is half-way through a file; same oracle, and a restore interrupted during the "
+        "extraction must not report success."
         ' A further prior state holds an index still in format 1 (the restoring process migrates it first).')
 ASSUMPTIONS = [
     "crash = process death at Python-line granularity (all Python frames, so shutil.copytree steps are points); points inside one SQLite "
@@ -180,6 +183,19 @@ def make_prior(prior, rows, other):
     return root
 
 
+VERSION_DIR = __import__("re").compile(r"^[A-Za-z0-9_-]+\.task\.\d+$")
+
+
+def existing_versions(rows_before, tree_before):
+    """Every version directory present before the restore - recorded or not (a leftover of a failed run is the "pre-existing
+    directory" of the statement) - with its content."""
+    out = {vdir(r): hist.subtree(tree_before, vdir(r)) for r in rows_before}
+    for k, v in tree_before.items():
+        if os.sep not in k and v == ("d",) and VERSION_DIR.match(k):
+            out.setdefault(k, hist.subtree(tree_before, k))
+    return out
+
+
 def oracle(root, rows_before, recorded_before, arch_rows, arch_dirs, success, viol, art, tag):
     rows_after = hist.rows(root)
     tree = hist.data_tree(root)
@@ -189,7 +205,7 @@ def oracle(root, rows_before, recorded_before, arch_rows, arch_dirs, success, vi
     # previously recorded directories are never modified
     for d, sub in recorded_before.items():
         if hist.subtree(tree, d) != sub or tree.get(d) != ("d",):
-            viol("%s:existing-version-modified" % tag, "recorded version directory %s was modified by the restore" % d, art)
+            viol("%s:existing-version-modified" % tag, "version directory %s, which existed before the restore, was modified or removed by it" % d, art)
     if success:
         missing = [r for r in arch_rows if tuple(r) not in [tuple(x) for x in rows_after]]
         if missing:
@@ -211,13 +227,146 @@ def oracle(root, rows_before, recorded_before, arch_rows, arch_dirs, success, vi
             viol("%s:row-without-directory" % tag, "row %s is recorded but %s does not exist" % (tuple(r), vdir(r)), art)
 
 
+INTERRUPT_CHUNKS = 6
+
+
 def items(tier):
     out = []
     for nv in (1, 2, 3):
         for prior in PRIORS:
             out.append({"kind": "corrupt", "nv": nv, "prior": prior})
             out.append({"kind": "crash", "nv": nv, "prior": prior})
+    # SIGINT/SIGTERM instead of SIGKILL: ConductorAbort raised at every line of Conductor code during the restore (the cleanup
+    # code runs), and a real SIGTERM while the external tar is half-way through a file
+    for nv in (1, 2):
+        for prior in ("empty", "holds-unrelated", "holds-unrecorded-dir") + (("holds-recorded-same", "stale-staging-same") if tier == "thorough" else ()):
+            for ch in range(INTERRUPT_CHUNKS):
+                out.append({"kind": "interrupt", "nv": nv, "prior": prior, "chunk": ch})
+        for prior in ("empty", "holds-unrelated"):
+            out.append({"kind": "midtar", "nv": nv, "prior": prior})
     return out
+
+
+def _fresh_dst(item, data, arows, other):
+    root = make_prior(item["prior"], arows, other)
+    rows_before = hist.rows(root)
+    tree_before = hist.data_tree(root)
+    recorded_before = existing_versions(rows_before, tree_before)
+    arch = os.path.join(root, "R.tar.gz")
+    with open(arch, "wb") as f:
+        f.write(data)
+    return root, arch, rows_before, recorded_before
+
+
+def _interrupt(item, tier, data, arows, adirs, other, res, viol):
+    from conductor.errors import ConductorAbort
+    counts = []
+    for _ in range(5):
+        root, arch, _, _ = _fresh_dst(item, data, arows, other)
+        counter = inject.AbortInjector(None)
+        with _quiet():
+            hist.run(root, ["restore", arch], tracer=counter)
+        counts.append(counter.count)
+        if len(counts) >= 2 and counts[-1] == counts[-2] and counts[-1] > 0:
+            break
+    N = counts[-1]
+    if len(counts) < 2 or counts[-1] != counts[-2] or N == 0:
+        raise RuntimeError("interrupt-point count of cond restore is not deterministic: %r" % (counts,))
+    res["counters"]["interrupt_points:%d:%s" % (item["nv"], item["prior"])] = N if item["chunk"] == 0 else 0
+    for k in range(item["chunk"] * N // INTERRUPT_CHUNKS, (item["chunk"] + 1) * N // INTERRUPT_CHUNKS):
+        root, arch, rows_before, recorded_before = _fresh_dst(item, data, arows, other)
+        inj = inject.AbortInjector(k, exc_factory=ConductorAbort)
+        with _quiet():
+            r = hist.run(root, ["restore", arch], tracer=inj)
+        res["evals"] += 1
+        if inj.fired_at is None or inj.skipped_finalizer:
+            continue
+        res["sigs"].add(explore.sig([item["nv"], item["prior"], "interrupt", inj.fired_at]))
+        art = {"kind": "interrupt", "nv": item["nv"], "prior": item["prior"], "chunk": item["chunk"], "k": k, "at": list(inj.fired_at)}
+        success = (r.exit == 0 and r.exc is None)
+        if r.exc is not None:
+            # (a traceback instead of the abort message - e.g. UnboundLocalError from the `finally` when the interrupt comes before
+            # `staging_path` is bound - is not something this property speaks about: counted, not charged)
+            res["counters"]["interrupts_ending_in_a_traceback"] = res["counters"].get("interrupts_ending_in_a_traceback", 0) + 1
+        # all-or-nothing: an interrupt that lands after the commit leaves a completed restore (judged as one), any other nothing
+        rows_after = hist.rows(root) or []
+        committed = bool(arows) and all(tuple(x) in [tuple(y) for y in rows_after] for x in arows)
+        oracle(root, rows_before, recorded_before, arows, adirs, success or committed, viol, art, "interrupt")
+    res["sample"] = {"prior": item["prior"], "archive_rows": arows, "interrupt_points": N}
+
+
+TAR_SHIM = """#!/bin/bash
+# tar as seen half-way through writing a member: everything is extracted, the last payload file is still short; the process
+# announces that state, keeps "writing" for a while and then completes the file.
+%(real)s "$@"
+rc=$?
+if [ "$1" = "xzf" ] && [ $rc -eq 0 ] && [ -n "$VFW_TAR_MARK" ] && [ ! -e "$VFW_TAR_MARK" ]; then
+  f=$(find "$4" -type f -name 'f.bin' | sort | tail -1)
+  if [ -n "$f" ]; then
+    cp "$f" "$VFW_TAR_MARK.saved"
+    head -c 3 "$VFW_TAR_MARK.saved" > "$f"
+    touch "$VFW_TAR_MARK"
+    sleep 1.5
+    [ -d "$(dirname "$f")" ] && cat "$VFW_TAR_MARK.saved" > "$f" 2>/dev/null
+  fi
+fi
+exit $rc
+"""
+
+
+def _midtar(item, tier, data, arows, adirs, other, res, viol):
+    import signal
+    import threading
+    import time
+    root, arch, rows_before, recorded_before = _fresh_dst(item, data, arows, other)
+    shimdir = os.path.join(driver.scratch_root(), "c12shim")
+    shutil.rmtree(shimdir, ignore_errors=True)
+    os.makedirs(shimdir)
+    real = shutil.which("tar")
+    with open(os.path.join(shimdir, "tar"), "w") as f:
+        f.write(TAR_SHIM % {"real": real})
+    os.chmod(os.path.join(shimdir, "tar"), 0o755)
+    mark = os.path.join(shimdir, "midway")
+    for signame in ("SIGTERM", "SIGINT"):
+        root, arch, rows_before, recorded_before = _fresh_dst(item, data, arows, other)
+        for p in (mark, mark + ".saved"):
+            if os.path.exists(p):
+                os.unlink(p)
+        done, sent, late = threading.Event(), [], []
+
+        def sender():
+            deadline = time.time() + 10
+            while time.time() < deadline and not done.is_set():
+                if os.path.exists(mark):
+                    sent.append(1)
+                    os.kill(os.getpid(), getattr(signal, signame))
+                    return
+                time.sleep(0.005)
+
+        old = {s_: signal.getsignal(s_) for s_ in (signal.SIGTERM, signal.SIGINT)}
+        for s_ in old:
+            signal.signal(s_, lambda *a: late.append(1))     # should the signal arrive after Conductor has put the handlers back
+        th = threading.Thread(target=sender, daemon=True)
+        th.start()
+        try:
+            with _quiet():
+                r = hist.run(root, ["restore", arch], env={"PATH": shimdir + os.pathsep + os.environ.get("PATH", ""), "VFW_TAR_MARK": mark})
+        finally:
+            done.set()
+            th.join()
+            for s_, h in old.items():
+                signal.signal(s_, h)
+        res["evals"] += 1
+        art = {"kind": "midtar", "nv": item["nv"], "prior": item["prior"], "signal": signame}
+        if not sent or late:
+            res["counters"]["midtar_not_reached"] = res["counters"].get("midtar_not_reached", 0) + 1
+            continue
+        res["sigs"].add(explore.sig([item["nv"], item["prior"], "midtar", signame]))
+        success = (r.exit == 0 and r.exc is None)
+        oracle(root, rows_before, recorded_before, arows, adirs, success, viol, art, "midtar")
+        if success:
+            viol("midtar:reported-success", "%s arrived while tar was still extracting, yet cond restore reported success" % signame, art)
+    res["sample"] = {"prior": item["prior"], "archive_rows": arows, "signal_while": "tar half-way through the last payload file"}
 
 
 def run_item(item, tier):
@@ -235,7 +384,7 @@ def run_item(item, tier):
             root = make_prior(item["prior"], arows, other)
             rows_before = hist.rows(root)
             tree_before = hist.data_tree(root)
-            recorded_before = {vdir(r): hist.subtree(tree_before, vdir(r)) for r in rows_before}
+            recorded_before = existing_versions(rows_before, tree_before)
             arch = os.path.join(root, "R.tar.gz")
             with open(arch, "wb") as f:
                 f.write(cdata)
@@ -255,6 +404,10 @@ def run_item(item, tier):
             if cname == "none" and item["prior"] in ("empty", "holds-unrelated", "stale-staging", "stale-staging-other", "format1-index", "stale-staging-same") and not success:
                 viol("valid-restore-failed", "restoring a valid archive into prior state %s failed: %r %s" % (item["prior"], r.exc, r.err_text[:200]), art)
         res["sample"] = {"archive_rows": arows, "prior": item["prior"], "corruptions": "index/dir removed, truncations, garbage/format-1 index, ..."}
+    elif item["kind"] == "interrupt":
+        _interrupt(item, tier, data, arows, adirs, other, res, viol)
+    elif item["kind"] == "midtar":
+        _midtar(item, tier, data, arows, adirs, other, res, viol)
     else:
         _crash(item, tier, data, arows, adirs, other, res, viol)
     for key, (what, art) in found.items():
@@ -282,7 +435,7 @@ def _crash(item, tier, data, arows, adirs, other, res, viol):
     root = make_prior(item["prior"], arows, other)
     rows_before = hist.rows(root)
     tree_before = hist.data_tree(root)
-    recorded_before = {vdir(r): hist.subtree(tree_before, vdir(r)) for r in rows_before}
+    recorded_before = existing_versions(rows_before, tree_before)
     arch = os.path.join(root, "R.tar.gz")
     with open(arch, "wb") as f:
         f.write(data)
@@ -333,5 +486,5 @@ def _crash(item, tier, data, arows, adirs, other, res, viol):
 
 
 def replay(artefact):
-    r = run_item({"kind": artefact["kind"], "nv": artefact["nv"], "prior": artefact["prior"]}, "quick")
+    r = run_item({"kind": artefact["kind"], "nv": artefact["nv"], "prior": artefact["prior"], "chunk": artefact.get("chunk", 0)}, "quick")
     return [(v["key"], v["what"]) for v in r["violations"]]
